@@ -247,3 +247,59 @@ harness! {
         assert!(MaybeMovePush::push(&mut e, mv).is_err());
     }
 }
+
+// C09 (i): the SAN candidate generators (before the legality filter): exactly the pseudo-legal
+// simple moves of `piece` to `dst`, resp. the pseudo-legal pawn captures from file `src` to file `dst`
+macro_rules! san_cand {
+    ($name:ident, $cval:expr, $white:expr) => {
+        harness! {
+            #[kani::unwind(17)]
+            #[kani::stub(crate::attack::rook, crate::verif_anyboard::stub_rook)]
+            #[kani::stub(crate::attack::bishop, crate::verif_anyboard::stub_bishop)]
+            fn $name() {
+                let b = ab::any_board_side(if $white { Color::White } else { Color::Black });
+                ab::assume_at_most_16(&b);
+                let pc = vk::any_u8(); vk::assume(1 <= pc && pc <= 5);
+                let d = ab::any_sq();
+                let w = any_w(rs::code($white, pc));
+                let rw = rs::rmove(w);
+                let mut sink = WSink::new(w);
+                let res = MoveGenImpl::new(&b, &mut sink, $cval).san_candidates(Piece::from_index(pc as usize), ab::coord(d));
+                let want = rs::ref_pseudo(&b.r, rw) && rw.kind == rs::K_SIMPLE && rw.dst == d;
+                check_sink(&sink, res, want);
+                cover!(want);
+            }
+        }
+    };
+}
+san_cand!(c09_san_candidates_w, GW, true);
+san_cand!(c09_san_candidates_b, GB, false);
+macro_rules! san_pawn_cand {
+    ($name:ident, $cval:expr, $white:expr) => {
+        harness! {
+            #[kani::unwind(17)]
+            fn $name() {
+                let b = ab::any_board_side(if $white { Color::White } else { Color::Black });
+                ab::assume_at_most_16(&b);
+                ab::assume_no_backrank_pawns(&b);
+                ab::assume_ep_consistent(&b);
+                let sf = vk::any_u8(); vk::assume(sf < 8); let df = vk::any_u8(); vk::assume(df < 8);
+                let promote = match vk::any_u8() % 5 { 0 => None, 1 => Some(PromotePiece::Knight), 2 => Some(PromotePiece::Bishop), 3 => Some(PromotePiece::Rook), _ => Some(PromotePiece::Queen) };
+                let pk = match promote { None => 0u8, Some(PromotePiece::Knight) => 6, Some(PromotePiece::Bishop) => 7, Some(PromotePiece::Rook) => 8, Some(PromotePiece::Queen) => 9 };
+                let w = any_w(rs::code($white, rs::PAWN));
+                let rw = rs::rmove(w);
+                let mut sink = WSink::new(w);
+                let res = MoveGenImpl::new(&b, &mut sink, $cval).san_pawn_capture_candidates(File::from_index(sf as usize), File::from_index(df as usize), promote);
+                // pawn captures (ordinary, promoting, en passant) from file sf to the ADJACENT file df with that promotion
+                let adjacent = sf + 1 == df || df + 1 == sf;
+                let want = rs::ref_pseudo(&b.r, rw) && adjacent && rw.src % 8 == sf && rw.dst % 8 == df
+                    && (if pk == 0 { rw.kind == rs::K_SIMPLE || rw.kind == rs::K_EP } else { rw.kind == pk });
+                check_sink(&sink, res, want);
+                cover!(want && rw.kind == rs::K_EP);
+                cover!(want && pk == 9);
+            }
+        }
+    };
+}
+san_pawn_cand!(c09_san_pawn_candidates_w, GW, true);
+san_pawn_cand!(c09_san_pawn_candidates_b, GB, false);
